@@ -63,6 +63,15 @@ def shl64 (x s : Nat) : Nat := (x * 2^s) % 2^64
 /-- `uint(x)` / `uint64(x)` of an `int` (two's complement wrap-around for negative x) -/
 def uintOfInt (x : Int) : Nat := (x % 2^64).toNat
 
+/-! ### int64 (values are `Int` in [-2^63, 2^63); `+ -` are emitted with an explicit `wrapS64`) -/
+
+/-- two's complement wrap-around into [-2^63, 2^63) -/
+def wrapS64 (x : Int) : Int := (x + 2^63) % 2^64 - 2^63
+/-- `x ^ y` on int64: bitwise xor of the two's complement representations -/
+def xorS64 (x y : Int) : Int := wrapS64 (Int.ofNat ((x % 2^64).toNat ^^^ (y % 2^64).toNat))
+/-- a Go string (bytes) as a Lean `String`, for error messages built by concatenation -/
+def strOf (s : GoString) : String := String.ofList (s.map (fun b => Char.ofNat b.toNat))
+
 /-! ### *big.Int read as an exact integer -/
 
 def bigIsUint64 (x : Int) : Bool := decide (0 ≤ x ∧ x < 2^64)
@@ -74,6 +83,18 @@ def bigBitLen (x : Int) : Int := if x = 0 then 0 else (Nat.log2 x.natAbs + 1 : N
 /-- `x.Bit(i)`: bit i of x in two's complement (i < 0 panics in Go: not modelled) -/
 def bigBit (x : Int) (i : Int) : Nat :=
   if 0 ≤ x then (x.toNat >>> i.toNat) % 2 else ((-x - 1).toNat >>> i.toNat + 1) % 2
+
+/-- `x.Cmp(y)`: -1 / 0 / +1 -/
+def bigCmp (x y : Int) : Int := if x < y then -1 else if x = y then 0 else 1
+/-- `z.Mod(x, m)`: the Euclidean remainder, `0 ≤ result < |m|` (m = 0 panics in Go: not modelled) -/
+def bigMod (x m : Int) : Int := x % m
+/-- `z.SetBytes(b)`: b read as a big-endian unsigned integer -/
+def bigSetBytes (b : Bytes) : Int := Int.ofNat (b.foldl (fun a x => a * 256 + x.toNat) 0)
+
+/-- the VALUE of the window `x[a:b]` when it is only read (bounds outside `0 ≤ a ≤ b ≤ cap x` panic in Go: not modelled) -/
+def sliceOf {α} (x : List α) (a b : Int) : List α := (x.drop a.toNat).take (b.toNat - a.toNat)
+/-- `make([]T, n)`: n zero values of T (a negative n panics in Go: not modelled) -/
+def makeSlice {α} [Inhabited α] (n : Int) : List α := List.replicate n.toNat default
 
 /-! ### map[string]V -/
 
